@@ -14,6 +14,7 @@ pub mod c13;
 pub mod c14;
 pub mod c15;
 pub mod c17;
+pub mod c18;
 pub mod c19;
 pub mod c20;
 pub mod c16;
@@ -30,6 +31,7 @@ pub fn run(id: &str, ctx: &Ctx) -> Report {
         "C07" => c07::run(ctx),
         "C17" => c17::run(ctx),
         "C20" => c20::run(ctx),
+        "C18" => c18::run(ctx),
         "C19" => c19::run(ctx),
         "C08" => c08::run(ctx),
         "C09" => c09::run(ctx),
